@@ -548,6 +548,23 @@ func GenOneParam[T any](a int) int { var z T; return a + int(unsafe.Sizeof(z)) }
 //go:noinline
 func GenTyped[T any](x T, a int) int { return a + 7 }
 
+// GenWide takes more arguments than fit into registers: the instantiation's wrapper spills and reloads them before it
+// calls the shared body, which therefore lies far behind the wrapper's entry.
+//
+//go:noinline
+func GenWide[T any](a, b, c, d, e, f, g, h, i, j, k, l int, s string, x T, fl float64) int {
+	var z T
+	return a + b + c + d + e + f + g + h + i + j + k + l + len(s) + int(unsafe.Sizeof(z)) + int(fl)
+}
+
+// GW is a generic type with a method of the same kind
+type GW[T any] struct{ n int }
+
+//go:noinline
+func (w *GW[T]) Wide(a, b, c, d, e, f, g, h, i, j, k, l int, s string, x T, fl float64) int {
+	return w.n + a + b + c + d + e + f + g + h + i + j + k + l + len(s) + int(fl)
+}
+
 // TestC01Generics: instantiations of generic functions are functions too. Return stubs, callbacks and the exact
 // arguments; other instantiations stay original.
 func TestC01Generics(t *testing.T) {
@@ -570,6 +587,32 @@ func TestC01Generics(t *testing.T) {
 		b.Reset()
 		if got := [2]int{GenNoParam[int](), GenNoParam[string]()}; got != [2]int{1008, 1016} {
 			rep.Violate("C01/not-original-after-reset", fmt.Sprintf("generic instantiations after Reset: %v want [1008 1016]", got), nil)
+		}
+	}
+	// many parameters (the wrapper is long): a Return stub diverts every form of call, the other instantiation stays
+	{
+		b := mocker.Create()
+		gw := &GW[int]{n: 1}
+		perr := guard(func() {
+			b.Func(GenWide[int]).Return(4100)
+			b.Struct(&GW[int]{}).Method("Wide").Return(4200)
+		})
+		rep.Eval(4)
+		rep.Class("generic-function/many-parameters")
+		var got [4]int
+		if perr == nil {
+			perr = guard(func() {
+				f := GenWide[int]
+				got = [4]int{GenWide[int](1, 2, 3, 4, 5, 6, 7, 8, 9, 10, 11, 12, "s", 5, 1.5), f(1, 2, 3, 4, 5, 6, 7, 8, 9, 10, 11, 12, "s", 5, 1.5),
+					gw.Wide(1, 2, 3, 4, 5, 6, 7, 8, 9, 10, 11, 12, "s", 5, 1.5), GenWide[string](1, 2, 3, 4, 5, 6, 7, 8, 9, 10, 11, 12, "s", "x", 1.5)}
+			})
+		}
+		if want := [4]int{4100, 4100, 4200, 78 + 1 + 16 + 1}; perr != nil || got != want {
+			rep.Violate("C01/generic-function-not-diverted", fmt.Sprintf("GenWide[int] Return(4100) and (*GW[int]).Wide Return(4200), fifteen parameters each: direct call, function value, method call, untouched GenWide[string] = %v (panic %v), want %v", got, perr, want), nil)
+		}
+		func() { defer func() { recover() }(); b.Reset() }()
+		if got := [2]int{GenWide[int](1, 2, 3, 4, 5, 6, 7, 8, 9, 10, 11, 12, "s", 5, 1.5), gw.Wide(1, 2, 3, 4, 5, 6, 7, 8, 9, 10, 11, 12, "s", 5, 1.5)}; got != [2]int{78 + 1 + 8 + 1, 1 + 78 + 1 + 1} {
+			rep.Violate("C01/not-original-after-reset", fmt.Sprintf("GenWide[int], (*GW[int]).Wide after Reset: %v", got), nil)
 		}
 	}
 	// with parameters: the callback sees the caller's arguments
